@@ -37,6 +37,16 @@ BEHAVIOURS = {
     "fail-pending-postfix": "{ int32_t i = 0; RdV = i++ + no_such_function(RtV); }",
     "fail-pending-stmtexpr": "{ RdV = ({ RxV = RsV; RxV; }) + no_such_function(RtV); }",
     "fail-pending-imm": "{ RdV = siV + no_such_function(uiV); }",
+    # every operand kind written only / read only / plain and .new (objects that describe an operand carry an access
+    # mode and a read counter: they must not outlive the behaviour that created them)
+    "alias-write": "{ HEX_REG_ALIAS_LR = RsV; HEX_REG_ALIAS_SA0 = RtV; }",
+    "alias-read": "{ RdV = HEX_REG_ALIAS_LR + HEX_REG_ALIAS_SA0; }",
+    "explicit-write": "{ R31 = RsV; P1 = RtV; }",
+    "explicit-read": "{ RdV = R31 + P1; }",
+    "letter-write": "{ RxV = RsV; PeV = RtV; }",
+    "letter-read": "{ RdV = RxV + PeV; }",
+    "letter-new": "{ RdV = PuN + NsN; }",
+    "letter-plain": "{ RdV = PuV + RsV; }",
     # several value-producing operations consumed by one statement (their order is part of the meaning)
     "tmp-three": "{ int32_t i = 0; RdV = clz32(RsV) + i++ + clo32(RtV); }",
     "tmp-sat-chain": "{ RdV = (clz32(RsV) > 3) ? ({ set_usr_field(bundle, HEX_REG_FIELD_USR_OVF, 1); clo32(RtV); }) : fbrev(RsV); }",
